@@ -401,10 +401,11 @@ pub fn estimate_rows(q: &[Clause], g: &GraphShape) -> f64 {
 /// node props: k (int), s (string), b (bool); rel props: w (int)
 pub fn gen_graph(rng: &mut Rng, out: &mut dyn Write) -> GraphShape {
     let n = if rng.chance(1, 12) { rng.below(2) as usize } else { rng.range(3, 5) as usize };
-    for _ in 0..n {
+    for idx in 0..n {
         let mut labels = vec![];
         for (i, l) in LABELS.iter().enumerate() {
-            if rng.chance(if i == 0 { 3 } else { 2 }, 5) {
+            // the first three nodes all carry :A (see below)
+            if (i == 0 && idx < 3 && n >= 3) || rng.chance(if i == 0 { 3 } else { 2 }, 5) {
                 labels.push(*l);
             }
         }
@@ -412,7 +413,15 @@ pub fn gen_graph(rng: &mut Rng, out: &mut dyn Write) -> GraphShape {
             labels.reverse();
         }
         let mut props = vec![];
-        if rng.chance(9, 10) {
+        // bias: with at least three nodes, node 0 has no `k`, node 1 has k = 1, node 2 has k = 4, so that a
+        // predicate like `a.k > 2` is null, false and true on some row of every case (`MATCH (a:A)` included)
+        if n >= 3 && idx < 3 {
+            match idx {
+                0 => {}
+                1 => props.push("k=i1".to_string()),
+                _ => props.push("k=i4".to_string()),
+            }
+        } else if rng.chance(9, 10) {
             props.push(format!("k=i{}", rng.pick(INTS)));
         }
         if rng.chance(1, 2) {
@@ -901,20 +910,235 @@ impl<'a> Gen<'a> {
     }
 }
 
+impl<'a> Gen<'a> {
+    /// a predicate over the OUTER variables only that is null / false / true on different rows of the biased graph
+    fn outer_pred(&mut self, outer: &Scope) -> Expr {
+        let nodes = outer.of(Ty::Node);
+        let ints = outer.of(Ty::Int);
+        let lit = |v: i64| Box::new(Expr::Lit(Lit::Int(v)));
+        if !ints.is_empty() && self.rng.chance(1, 3) {
+            let v = Box::new(Expr::Var(self.rng.pick(&ints).clone()));
+            return match self.rng.below(3) {
+                0 => Expr::Cmp("gt", v, lit(2)),
+                1 => Expr::Cmp("le", v, lit(1)),
+                _ => Expr::NotNull(v),
+            };
+        }
+        if nodes.is_empty() {
+            return self.bool_expr(outer, 0);
+        }
+        let a = self.rng.pick(&nodes).clone();
+        let k = Box::new(Expr::Prop(a.clone(), "k".into()));
+        match self.rng.below(10) {
+            0 | 1 => Expr::Cmp("gt", k, lit(2)),
+            2 => Expr::Cmp("ge", k, lit(3)),
+            3 => Expr::Not(Box::new(Expr::Cmp("gt", k, lit(2)))),
+            4 => Expr::Cmp("lt", k, lit(3)),
+            5 => Expr::Cmp("eq", k, lit(4)),
+            6 => Expr::Cmp("ne", k, lit(1)),
+            7 => Expr::IsNull(k),
+            8 => Expr::Prop(a, "b".into()),
+            _ => self.bool_expr(outer, 0),
+        }
+    }
+
+    /// one `OPTIONAL MATCH (a)-[..]-(new) WHERE p`; returns the clauses and the kind of `p`
+    fn optional_where(&mut self, sc: &mut Scope) -> (Vec<Clause>, &'static str) {
+        let outer = sc.clone();
+        let nodes = outer.of(Ty::Node);
+        let a = self.rng.pick(&nodes).clone();
+        let mut inner = Scope { vars: vec![], fresh: sc.fresh };
+        let rv = if self.rng.chance(1, 2) {
+            let v = sc.fresh("r");
+            inner.vars.push((v.clone(), Ty::Rel));
+            Some(v)
+        } else {
+            None
+        };
+        let nv = sc.fresh("n");
+        inner.vars.push((nv.clone(), Ty::Node));
+        let types: Vec<String> = match self.rng.below(4) {
+            0 | 1 => vec![],
+            2 => vec!["T".into()],
+            _ => vec!["U".into()],
+        };
+        let mut np = NodePat { var: Some(nv.clone()), ..Default::default() };
+        if self.rng.chance(1, 4) {
+            np.labels.push(self.rng.pick(LABELS).to_string());
+        }
+        let pat = PathPat {
+            start: NodePat { var: Some(a), ..Default::default() },
+            steps: vec![(RelPat { var: rv, types, dir: *self.rng.pick(&["out", "out", "in", "both"]), props: vec![] }, np)],
+        };
+        inner.fresh = sc.fresh;
+        let mut all = outer.clone();
+        all.vars.extend(inner.vars.clone());
+        let (p, kind): (Expr, &'static str) = match self.rng.below(10) {
+            0..=4 => (self.outer_pred(&outer), "outer"),
+            5 | 6 => (self.bool_expr(&inner, 0), "inner"),
+            7 | 8 => {
+                let o = self.outer_pred(&outer);
+                let i = self.bool_expr(&inner, 1);
+                let e = match self.rng.below(3) {
+                    0 => Expr::And(Box::new(o), Box::new(i)),
+                    1 => Expr::Or(Box::new(o), Box::new(i)),
+                    _ => {
+                        let an = self.rng.pick(&outer.of(Ty::Node)).clone();
+                        Expr::Cmp(
+                            *self.rng.pick(&["lt", "ge", "eq"]),
+                            Box::new(Expr::Prop(an, "k".into())),
+                            Box::new(Expr::Prop(nv.clone(), "k".into())),
+                        )
+                    }
+                };
+                (e, "mixed")
+            }
+            _ => (Expr::Lit(if self.rng.chance(1, 2) { Lit::Bool(self.rng.chance(1, 2)) } else { Lit::Null }), "const"),
+        };
+        sc.vars.extend(inner.vars);
+        (vec![Clause::Match(true, vec![pat]), Clause::Where(p)], kind)
+    }
+
+    /// "OPTIONAL MATCH never removes outer rows": `OPTIONAL MATCH … WHERE p` with `p` over outer-only, inner-only and
+    /// mixed variables (null / false / true on different outer rows of the biased graph), directly after a MATCH,
+    /// after a WITH, chained, and followed by aggregation (`count(*)` counts the padded rows)
+    pub fn optional_where_query(&mut self) -> (Vec<Clause>, String, String) {
+        let mut sc = Scope::default();
+        let mut q: Vec<Clause> = vec![];
+        let mut tag = String::new();
+        // outer side
+        match self.rng.below(8) {
+            0..=3 => {
+                let v = sc.fresh("n");
+                sc.vars.push((v.clone(), Ty::Node));
+                let mut np = NodePat { var: Some(v), ..Default::default() };
+                if self.rng.chance(1, 2) {
+                    np.labels.push("A".into());
+                }
+                q.push(Clause::Match(false, vec![PathPat { start: np, steps: vec![] }]));
+                tag.push_str("match");
+            }
+            4 => {
+                let a = sc.fresh("n");
+                let r = sc.fresh("r");
+                let b = sc.fresh("n");
+                sc.vars.push((a.clone(), Ty::Node));
+                sc.vars.push((r.clone(), Ty::Rel));
+                sc.vars.push((b.clone(), Ty::Node));
+                q.push(Clause::Match(
+                    false,
+                    vec![PathPat {
+                        start: NodePat { var: Some(a), ..Default::default() },
+                        steps: vec![(RelPat { var: Some(r), types: vec![], dir: "out", props: vec![] }, NodePat { var: Some(b), ..Default::default() })],
+                    }],
+                ));
+                tag.push_str("match-rel");
+            }
+            _ => {
+                // after WITH: the node and one of its properties as a scalar
+                let v = sc.fresh("n");
+                let mut np = NodePat { var: Some(v.clone()), ..Default::default() };
+                if self.rng.chance(1, 2) {
+                    np.labels.push("A".into());
+                }
+                q.push(Clause::Match(false, vec![PathPat { start: np, steps: vec![] }]));
+                let c = sc.fresh("c");
+                let p = Proj {
+                    items: vec![
+                        Item { expr: ItemExpr::Plain(Expr::Var(v.clone())), alias: v.clone() },
+                        Item { expr: ItemExpr::Plain(Expr::Prop(v.clone(), "k".into())), alias: c.clone() },
+                    ],
+                    ..Default::default()
+                };
+                q.push(Clause::With(p, None));
+                sc.vars.push((v, Ty::Node));
+                sc.vars.push((c, Ty::Int));
+                tag.push_str("with");
+            }
+        }
+        let (cl, kind) = self.optional_where(&mut sc);
+        q.extend(cl);
+        tag.push_str(":");
+        tag.push_str(kind);
+        if self.rng.chance(2, 5) {
+            let (cl, kind) = self.optional_where(&mut sc);
+            q.extend(cl);
+            tag.push_str("+");
+            tag.push_str(kind);
+        }
+        // result
+        let first_node = sc.of(Ty::Node)[0].clone();
+        let last_node = sc.of(Ty::Node).last().unwrap().clone();
+        let mut mode = "bag".to_string();
+        let p = match self.rng.below(6) {
+            0 | 1 => {
+                tag.push_str(":count");
+                Proj { items: vec![Item { expr: ItemExpr::Agg("countstar", Expr::Lit(Lit::Null)), alias: "a1".into() }], ..Default::default() }
+            }
+            2 => {
+                tag.push_str(":group");
+                Proj {
+                    items: vec![
+                        Item { expr: ItemExpr::Plain(Expr::Prop(first_node.clone(), "k".into())), alias: "c1".into() },
+                        Item { expr: ItemExpr::Agg("countstar", Expr::Lit(Lit::Null)), alias: "a2".into() },
+                        Item { expr: ItemExpr::Agg("count", Expr::Prop(last_node.clone(), "k".into())), alias: "a3".into() },
+                    ],
+                    ..Default::default()
+                }
+            }
+            3 | 4 => {
+                tag.push_str(":rows");
+                Proj {
+                    items: vec![
+                        Item { expr: ItemExpr::Plain(Expr::Var(first_node.clone())), alias: first_node.clone() },
+                        Item { expr: ItemExpr::Plain(Expr::Var(last_node.clone())), alias: last_node.clone() },
+                    ],
+                    ..Default::default()
+                }
+            }
+            _ => {
+                tag.push_str(":random");
+                let (mut p, out) = self.projection(&sc, true);
+                if self.rng.chance(1, 3) && self.total_order(&mut p, &out) {
+                    mode = "list".into();
+                }
+                p
+            }
+        };
+        q.push(Clause::Return(p));
+        (q, mode, tag)
+    }
+}
+
 pub fn generate_query_stream(rng: &mut Rng, n: usize, _tier: &str, out: &mut dyn Write) {
     // several queries per graph
     let mut case = 0;
     let mut emitted = 0;
+    let mut optw = 0usize;
+    let mut optw_tags: std::collections::BTreeMap<String, usize> = Default::default();
     while emitted < n {
         case += 1;
         writeln!(out, "#case q{}", case).unwrap();
         let shape = gen_graph(rng, out);
         let k = 4;
         for _ in 0..k {
-            let (mut q, mut mode) = Gen { rng, params: false }.query();
+            let optional_family = rng.chance(1, 5);
+            let (mut q, mut mode) = if optional_family {
+                let (q, mode, tag) = Gen { rng, params: false }.optional_where_query();
+                optw += 1;
+                *optw_tags.entry(tag.split(':').nth(1).unwrap_or("").to_string()).or_default() += 1;
+                (q, mode)
+            } else {
+                Gen { rng, params: false }.query()
+            };
             let mut tries = 0;
             while estimate_rows(&q, &shape) > 1500.0 && tries < 30 {
-                (q, mode) = Gen { rng, params: false }.query();
+                (q, mode) = if optional_family {
+                    let (q, mode, _) = Gen { rng, params: false }.optional_where_query();
+                    (q, mode)
+                } else {
+                    Gen { rng, params: false }.query()
+                };
                 tries += 1;
             }
             let text = esc(&query_text(&q));
@@ -923,6 +1147,10 @@ pub fn generate_query_stream(rng: &mut Rng, n: usize, _tier: &str, out: &mut dyn
             writeln!(out, "query {} {} {}", mode, text, sx).unwrap();
             emitted += 1;
         }
+    }
+    if std::env::var("NVH_GEN_STATS").is_ok() {
+        eprintln!("query stream: {} queries, {} ({:.1}%) OPTIONAL MATCH … WHERE family, predicate kinds of the first OPTIONAL MATCH {:?}", emitted, optw,
+            100.0 * optw as f64 / emitted.max(1) as f64, optw_tags);
     }
 }
 
